@@ -499,7 +499,10 @@ pub fn judge(sc: &Scenario) -> Judgement {
         j.notes.push(format!("other-property=C18/C02 every delivery of this session hangs: {:?}", r0.hang));
         return j;
     }
-    if (r0.hang.is_none() && abnormal(&r0)) || (r2.hang.is_none() && abnormal(&r2)) {
+    // Only when BOTH reference deliveries end abnormally is the session itself the problem (a
+    // crash whatever the delivery: C02). If one of them is fine, the difference between the two
+    // is exactly what this property is about and is judged below.
+    if (r0.hang.is_none() && abnormal(&r0)) && (r2.hang.is_none() && abnormal(&r2)) {
         j.probe("skipped differential: a reference run ended abnormally", 1);
         j.notes.push(format!(
             "other-property=C02 reference run ended abnormally: end={:?} panics={:?}",
